@@ -48,6 +48,16 @@ fn st(prop: impl Property + 'static, quick: u64, thorough: u64, profile: Profile
     }
 }
 
+/// The same with a stage-specific thorough multiplier (cheap stages can afford more).
+fn st_x(prop: impl Property + 'static, quick: u64, thorough_scale: u64, profile: Profile) -> Stage {
+    Stage {
+        prop: Box::new(prop),
+        quick_cases: quick * QUICK_SCALE,
+        thorough_cases: quick * QUICK_SCALE * thorough_scale,
+        profile,
+    }
+}
+
 pub fn level_of(id: &str) -> &'static str {
     match id {
         "C12" => "fault_enumeration",
@@ -116,9 +126,9 @@ pub fn stages(id: &str) -> Vec<Stage> {
             st(C14 { params: Params::default(), stage: "conflict-free", conflict_free: true }, 15_000, 600_000, Release),
         ],
         "C15" => vec![
-            st(C15 { stage: "small", max_n: 33, all_pairs_upto: 33, sample_pairs: 0, extended: false }, 300, 6_000, Release),
-            st(C15 { stage: "large", max_n: 130, all_pairs_upto: 64, sample_pairs: 600, extended: false }, 40, 3_000, Release),
-            st(C15 { stage: "extended", max_n: 20, all_pairs_upto: 20, sample_pairs: 0, extended: true }, 1_000, 20_000, Release),
+            st_x(C15 { stage: "small", max_n: 33, all_pairs_upto: 33, sample_pairs: 0, extended: false }, 300, 128, Release),
+            st_x(C15 { stage: "large", max_n: 130, all_pairs_upto: 64, sample_pairs: 600, extended: false }, 40, 128, Release),
+            st_x(C15 { stage: "extended", max_n: 20, all_pairs_upto: 20, sample_pairs: 0, extended: true }, 1_000, 128, Release),
         ],
         "C16" => vec![
             st(C16 { params: Params::default(), stage: "main" }, 8_000, 300_000, Release),
